@@ -28,6 +28,7 @@ import TinkVerif.Props.GlueTie.FactoryHybrid
 import TinkVerif.Props.GlueTie.Jwt
 import TinkVerif.Props.GlueTie.IdReq
 import TinkVerif.Props.GlueTie.StreamNew
+import TinkVerif.Props.GlueTie.SlhAdrs
 import TinkVerif.Props.GlueTie.HkdfPrf
 import TinkVerif.Props.GlueTie.HmacNew
 import TinkVerif.Props.GlueTie.Pss
